@@ -1247,6 +1247,11 @@ pub fn with_crash_points(p: &Program, values: &[Res]) -> Vec<Program> {
 /// RMW between consecutive joins, so a thread blocked in `join` later races with accesses that
 /// happened while it was blocked (4 threads with different roles).
 pub fn a_sc_stagger(nat: usize, nchildren: usize, maxlen: usize, max_total: usize) -> Vec<Program> {
+    a_sc_stagger_slots(nat, nchildren, maxlen, max_total, usize::MAX)
+}
+
+/// `max_slot`: the main op is only placed after the first `max_slot + 1` joins
+pub fn a_sc_stagger_slots(nat: usize, nchildren: usize, maxlen: usize, max_total: usize, max_slot: usize) -> Vec<Program> {
     let mut alpha: Vec<Op> = vec![];
     for a in 0..nat {
         alpha.push(fadd(a, 0, Sc));
@@ -1282,6 +1287,9 @@ pub fn a_sc_stagger(nat: usize, nchildren: usize, maxlen: usize, max_total: usiz
         }
         // which main op goes after which join (at most one main op in total, to bound the size)
         for (slot, mo, order) in stagger_choices(nchildren, &main_opts) {
+            if slot > max_slot {
+                continue;
+            }
             {
                 let mut main: Vec<Op> = (1..=nchildren).map(|t| Op::from(K::Spawn { t })).collect();
                 for (k, &t) in order.iter().enumerate() {
